@@ -238,7 +238,12 @@ class IkeWorld(wd.World):
             raise Mismatch('bytes', 'a retransmitted / replayed datagram is not byte-identical to the one sent before',
                            expected=old.hex(), observed=data.hex())
         self.net[k] = data
-        self.track(sender, data, s, ctx)
+        try:
+            self.track(sender, data, s, ctx)
+        except (StopIteration, KeyError, IndexError, TypeError) as ex:
+            # the tracker reads a response next to the request it answers: payloads that the exchange always carries are missing, i.e. what the endpoint
+            # emitted as "the answer" does not belong to that request
+            raise Mismatch('reply', f'{ctx}: the emitted datagram does not have the shape of the exchange it is said to answer ({type(ex).__name__})')
         return s
 
     # ------------------------------------------------------------------ exchange tracker (C01: which KEYMAT half where)
@@ -272,6 +277,9 @@ class IkeWorld(wd.World):
         integ = {('sha1', 12): 2, ('sha256', 16): 12, ('sha512', 32): 14}[(pc.integrity.hasher().name, pc.integrity.hash_size)]
         rq = payloads(req_data, {'ke': pc.sk_e, 'ka': pc.sk_a, 'integ': integ})
         rs = payloads(data, self.keys_of(rsa_))
+        if not any(p['t'] == W.SA for p in rq) or not any(p['t'] == W.SA for p in rs):
+            # what the endpoint emitted as the answer to this request is the answer to ANOTHER exchange (a cached response handed out for the wrong request)
+            raise Mismatch('window', f'{ctx}: the datagram emitted in answer to a request is the response of another exchange (no SA payload where the exchange negotiates one)')
         if kind == 'rekey_ike_ok':
             prop = next(p for p in rs if p['t'] == W.SA)['proposals'][0]
             rprop = next(p for p in rq if p['t'] == W.SA)['proposals'][0]
